@@ -146,3 +146,192 @@ def h_sort_part_names(pi: int, d0: int, d1: int, d2: int) -> bool:
 
 def replay_h_sort_part_names(pi, d0, d1, d2):
     return None, "no concrete driver"
+
+
+def h_sort_part_names_shared_ids(i0: int, i1: int, i2: int, d0: int, d1: int, d2: int) -> bool:
+    """
+    pre: 0 <= i0 <= 2 and 0 <= i1 <= 2 and 0 <= i2 <= 2 and 1 <= d0 <= 2 and 1 <= d1 <= 2 and 1 <= d2 <= 2
+    pre: len({(d0, i0), (d1, i1), (d2, i2)}) == 3
+    post: __return__
+    """
+    # partitioned datasets give the same part number to files in different directories (k=1/part.0, k=2/part.0):
+    # three row groups with arbitrary (directory, id) pairs, all files distinct
+    ids, dirs = [i0, i1, i2], [d0, d1, d2]
+    rgs = [_rg(5 + i, "%spart.%d.parquet" % (DIRS[dirs[i]], ids[i])) for i in range(3)]
+    ds = _DS(rgs)
+    ds._sort_part_names(write_fmd=True, open_with=None)
+    # which file ends up with which number is the function's business; what must hold is that no rename lands on an
+    # existing file, every row group still points at an existing file of its own directory, and nothing is orphaned
+    got = [rg.columns[0].file_path for rg in ds.fmd.row_groups]
+    same_dirs = all(g.startswith(DIRS[dirs[i]]) and g.count("/") == DIRS[dirs[i]].count("/") for i, g in enumerate(got))
+    return same_dirs and not ds.fs.clobbered and _invariant(ds) and [rg.num_rows for rg in ds.fmd.row_groups] == [
+        5, 6, 7]
+
+
+def replay_h_sort_part_names_shared_ids(i0, i1, i2, d0, d1, d2):
+    """the witness state built on disk (one real part file per row group, summary written by merge() in the witness
+    order), then the real ParquetFile._sort_part_names"""
+    import shutil, tempfile
+    import pandas as pd
+    import fastparquet
+    from fastparquet import writer as w
+    ids, dirs = [i0, i1, i2], [d0, d1, d2]
+    d = tempfile.mkdtemp(prefix="c09-")
+    try:
+        dn = os.path.join(d, "ds")
+        paths = []
+        for i in range(3):
+            sub = os.path.join(dn, DIRS[dirs[i]])
+            os.makedirs(sub, exist_ok=True)
+            fn = os.path.join(sub, "part.%d.parquet" % ids[i])
+            fastparquet.write(fn, pd.DataFrame({"v": [10 * i, 10 * i + 1]}))
+            paths.append(fn)
+        w.merge(paths, root=dn)
+        pf = fastparquet.ParquetFile(dn)
+        before = [int(x) for x in pf.to_pandas()["v"]]
+        try:
+            pf._sort_part_names()
+            pf2 = fastparquet.ParquetFile(dn)
+            out = [int(x) for x in pf2.to_pandas()["v"]]
+        except Exception as ex:
+            return True, "renumbering the part files %r fails: %s: %s" % (
+                [os.path.relpath(p, dn) for p in paths], type(ex).__name__, str(ex)[:100])
+        files = sorted(os.path.relpath(os.path.join(dp, f), dn) for dp, _, fs in os.walk(dn) for f in fs
+                       if f.startswith("part."))
+        ref = sorted(rg.columns[0].file_path for rg in pf2.row_groups)
+        if out != before or files != ref:
+            return True, "renumbering the part files %r: rows %r (were %r); files on disk %r, referenced %r" % (
+                [os.path.relpath(p, dn) for p in paths], out, before, files, ref)
+        return False, "renumbering kept content and directory in agreement"
+    finally:
+        shutil.rmtree(d, ignore_errors=True)
+
+
+# ------------------------------------------------------------------ overwrite of partitions ---
+import fastparquet.writer as writer
+
+PV = [1, 2]
+QV = ["x", "y"]
+COMBOS = [(p, q) for p in PV for q in QV]
+
+
+class _Cols:
+    def __init__(self, rows, cols):
+        self.rows, self.cols = rows, cols
+
+    def astype(self, t):
+        return self
+
+    def agg(self, fn, axis=1):
+        return [fn([str(r[c]) for c in self.cols]) for r in self.rows]
+
+
+class _Loc:
+    def __init__(self, data):
+        self.data = data
+
+    def __getitem__(self, key):
+        _, cols = key
+        return _Cols(self.data.rows, list(cols))
+
+
+class _NewData:
+    """the frame handed to overwrite: rows with partition values, columns in a given order"""
+
+    def __init__(self, combos, columns):
+        self.rows = [{"p": p, "q": q, "v": 0} for p, q in combos]
+        self.columns = columns
+        self.loc = _Loc(self)
+
+
+class _PDx:
+    @staticmethod
+    def unique(xs):
+        out = []
+        for x in xs:
+            if x not in out:
+                out.append(x)
+        return out
+
+
+class _OWHandle(_DS):
+    cats = {"p": [1, 2], "q": ["x", "y"]}        # directory order: p then q
+
+    def __init__(self, rgs, new_combos):
+        _DS.__init__(self, rgs)
+        self.new_combos = new_combos
+
+    def _get_index(self):
+        return []
+
+    def write_row_groups(self, data, row_group_offsets=None, sort_key=None, sort_pnames=False, compression=None,
+                         write_fmd=True, open_with=None, mkdirs=None, stats=True):
+        # model of the append step (its own behaviour is C07's subject): one new part file per partition combination
+        nxt = 50
+        rgs = list(self.fmd.row_groups)
+        for p, q in self.new_combos:
+            path = "p=%d/q=%s/part.%d.parquet" % (p, q, nxt)
+            rgs.append(_rg(1000 + nxt, path))
+            self.fs.files.add("d/" + path)
+            nxt += 1
+        self.fmd.row_groups = sorted(rgs, key=sort_key) if sort_key else rgs
+        self.fmd.num_rows = sum(r.num_rows for r in self.fmd.row_groups)
+
+
+def h_overwrite(e0: bool, e1: bool, e2: bool, e3: bool, n0: bool, n1: bool, n2: bool, n3: bool, qfirst: bool) -> bool:
+    """
+    pre: n0 or n1 or n2 or n3
+    post: __return__
+    """
+    # existing dataset partitioned on p, q (directories p=<1|2>/q=<x|y>) holding the combinations flagged e*; the new
+    # frame holds the combinations flagged n*, with its columns ordered p,q or q,p.  After the real overwrite():
+    # exactly the combinations present in the new data were replaced, all others untouched, directory == metadata.
+    existing = [c for c, f in zip(COMBOS, (e0, e1, e2, e3)) if f]
+    new = [c for c, f in zip(COMBOS, (n0, n1, n2, n3)) if f]
+    rgs = [_rg(10 + i, "p=%d/q=%s/part.%d.parquet" % (p, q, i)) for i, (p, q) in enumerate(existing)]
+    handle = _OWHandle(rgs, new)
+    data = _NewData(new, ["v", "q", "p"] if qfirst else ["v", "p", "q"])
+    saved = (writer.ParquetFile, writer.pd, writer.reset_row_idx)
+    writer.ParquetFile = lambda *a, **k: handle
+    writer.pd = _PDx
+    try:
+        writer.overwrite("d", data, sort_pnames=False, open_with=None)
+    finally:
+        writer.ParquetFile, writer.pd, writer.reset_row_idx = saved
+    got = []
+    for rg in handle.fmd.row_groups:
+        fp = rg.columns[0].file_path
+        parts = fp.split("/")
+        got.append((int(parts[0][2:]), parts[1][2:], rg.num_rows >= 1000))
+    want_old = [(p, q, False) for (p, q) in existing if (p, q) not in new]
+    want_new = [(p, q, True) for (p, q) in new]
+    return sorted(got) == sorted(want_old + want_new) and _invariant(handle)
+
+
+def replay_h_overwrite(e0, e1, e2, e3, n0, n1, n2, n3, qfirst):
+    import shutil, tempfile
+    import pandas as pd
+    import fastparquet
+    existing = [c for c, f in zip(COMBOS, (e0, e1, e2, e3)) if f]
+    new = [c for c, f in zip(COMBOS, (n0, n1, n2, n3)) if f]
+    if not existing:
+        return None, "empty existing dataset"
+    d = tempfile.mkdtemp(prefix="c09-")
+    try:
+        dn = os.path.join(d, "ds")
+        old = pd.DataFrame({"v": list(range(len(existing))), "p": [c[0] for c in existing],
+                            "q": [c[1] for c in existing]})
+        fastparquet.write(dn, old, file_scheme="hive", partition_on=["p", "q"])
+        nd = pd.DataFrame({"v": [100 + i for i in range(len(new))], "p": [c[0] for c in new], "q": [c[1] for c in new]})
+        nd = nd[["v", "q", "p"]] if qfirst else nd[["v", "p", "q"]]
+        fastparquet.write(dn, nd, file_scheme="hive", partition_on=["p", "q"], append="overwrite")
+        out = fastparquet.ParquetFile(dn).to_pandas()
+        got = sorted((int(r.p), str(r.q), int(r.v)) for r in out.itertuples())
+        want = sorted([(p, q, i) for i, (p, q) in enumerate(existing) if (p, q) not in new] +
+                      [(p, q, 100 + i) for i, (p, q) in enumerate(new)])
+        if got != want:
+            return True, "overwrite of partitions %r (frame columns %r) over a dataset holding %r leaves rows %r, the " \
+                         "model predicts %r" % (new, list(nd.columns), existing, got, want)
+        return False, "model and dataset agree"
+    finally:
+        shutil.rmtree(d, ignore_errors=True)
